@@ -650,6 +650,15 @@ m("c11-merge-naked-delete-keeps-start-tail-from-cursor", "C11", "nomt/src/merkle
         ("nomt/src/merkle/seek.rs",
          "                if key_path == Some(&overlay_key) {\n                    // The leaf data has been updated in the overlay.\n                    beatree_leaf_idx += 1;\n                }",
          "                final_leaf_data_collection\n                    .extend_from_slice(&collected_leaf_data[start_idx..beatree_leaf_idx]);\n                if key_path == Some(&overlay_key) {\n                    // The leaf data has been updated in the overlay.\n                    beatree_leaf_idx += 1;\n                }\n                start_idx = beatree_leaf_idx;")])
+# ---- benign probes for K1 / W6 ----
+m("benign-rollback-returns-commit-result", "C09", "nomt/src/lib.rs",
+  "        finished.commit(&self)?;\n\n        Ok(())\n    }",
+  "        finished.commit(&self)\n    }",
+  None)
+m("benign-allocate-pop-through-local", "C17", "nomt/src/beatree/allocator/mod.rs",
+  "            Ok(free_list.get_nth_pop(allocation_index))",
+  "            let reused = free_list.get_nth_pop(allocation_index);\n            Ok(reused)",
+  None)
 # ---- benign probes for S11 / L8 / S12 ----
 m("benign-hash-path-hoisted-siblings", "C08", "core/src/proof/multi_proof.rs",
   "            &terminal_bits[start_depth..terminal_path.depth],\n            siblings[..unique_len].iter().rev().copied(),",
